@@ -140,7 +140,13 @@ def c12_program(draw):
         if path == linkfile:
             lo = next(i for i, s_ in enumerate(body) if s_["k"] == "link") + 1
         k = 2 * draw(st.integers(0, 16))
-        body.insert(draw(st.integers(lo, len(body))), {"k": "skip", "e": ("bin", "+", ("dot",), ("num", k))})
+        if draw(st.booleans()):
+            body.insert(draw(st.integers(lo, len(body))), {"k": "skip", "e": ("bin", "+", ("dot",), ("num", k))})
+        else:
+            # a .repeat whose count is defined at the end of the file, with a body that mentions its own address
+            cname = f"rc{path[1]}"
+            body.insert(draw(st.integers(lo, len(body))), {"k": "repeat", "e": ("sym", cname), "body": [{"k": "data", "d": "word", "es": [("dot",)]}]})
+            body.append({"k": "assign", "name": cname, "e": ("num", k // 8)})
         meta["gap"] = k
     if kind == "two":
         pos = draw(st.integers(0, len(first)))
